@@ -70,3 +70,25 @@ def torch_eval(model, rows):
     model.eval()
     with torch.no_grad():
         return model(torch.tensor(rows, dtype=torch.float32))
+
+
+def forward_variants(net, rows, shape=None):
+    """The same Boolean batch handed over in other containers / memory layouts: torch.BoolTensor, Fortran-ordered numpy,
+    a non-contiguous numpy view, a read-only array.  Returns {variant: list of rows | exception}."""
+    x = np.array(rows, dtype=bool)
+    if shape is not None:
+        x = x.reshape(len(rows), *shape)
+    out = {}
+    variants = {
+        "torch_bool": lambda: torch.tensor(x),
+        "fortran": lambda: np.asfortranarray(x),
+        "noncontiguous_view": lambda: np.repeat(x, 2, axis=x.ndim - 1)[..., ::2],
+        "readonly": lambda: (lambda a: (a.setflags(write=False), a)[1])(x.copy()),
+    }
+    for name, mk in variants.items():
+        try:
+            y = quiet(net.forward, mk())
+            out[name] = [[int(v) for v in np.array(r).reshape(-1)] for r in y.tolist()]
+        except Exception as e:
+            out[name] = e
+    return out
